@@ -260,6 +260,7 @@ CaseResult run_seg(const RunCtx &ctx, TapeReader &t, unsigned size_hint) {
     if (layer == 0) o.size_hint = std::min(size_hint, 70u), o.allow_threads = false, o.max_n = 6000;
     o.xkeys = ctx.x("xkeys");
     o.xthreads = ctx.x("xthreads");
+    o.xprocs = ctx.x("xprocs");
     o.smooth_curves = layer == 1;
     std::vector<K> keys = gen_keys<K>(t, o, meta);
     const size_t n = keys.size();
@@ -308,6 +309,7 @@ CaseResult run_seg(const RunCtx &ctx, TapeReader &t, unsigned size_hint) {
         if (!xk.empty()) {
             res.xdata.emplace_back("xkeys", xk);
             res.xdata.emplace_back("xthreads", std::to_string(meta.threads));
+            res.xdata.emplace_back("xprocs", std::to_string(meta.procs));
             if (layer == 0) {
                 std::string ys;
                 for (auto &p: api_pts) ys += (ys.empty() ? "" : " ") + std::to_string(p.y);
